@@ -310,7 +310,9 @@ struct C19 : vr::Driver {
             return;
           }
           fds[i] = fd;
-          if (!cl.bytes.empty()) (void)!::write(fd, cl.bytes.data(), cl.bytes.size());
+          // MSG_NOSIGNAL: the server may legitimately have dropped the session already (e.g. its first read was interrupted); a SIGPIPE
+          // in the HARNESS client would otherwise be mistaken for a crash of the code under test
+          if (!cl.bytes.empty()) (void)!::send(fd, cl.bytes.data(), cl.bytes.size(), MSG_NOSIGNAL);
           if (cl.behaviour == 1) return;  // stall: keep the connection open, send nothing (closed by the harness at the end)
           if (cl.behaviour == 2) ::shutdown(fd, SHUT_WR);
           if (cl.behaviour == 3) {
